@@ -1,6 +1,6 @@
 (* C14, translator tie, second batch (translate/kernels_bits2.json -> coq/Gen/Gen_bits2.v, regenerated from /repo on every run):
    generated definition = hand model (C14/Model.v) for ALL arguments of the documented domain.
-   - cmp_greater / cmp_less_equal / cmp_greater_equal / cmp_not_equal for the six mixed (T, U) pairs of the first batch and
+   - cmp_greater / cmp_less_equal / cmp_greater_equal / cmp_not_equal for the six mixed (T, U) pairs of the first batch plus (unsigned, int) and
      in_range<U>(T) for the same pairs: every value of T (and of U); the generated text CALLS the generated cmp_less /
      cmp_equal instantiations it forwards to (translated on demand, `auto_callees`), which are unfolded here;
    - saturate_cast<To>(From) for six (To, From) pairs: every value of From;
@@ -13,7 +13,7 @@
    [ok_of]: Ok v -> Some v, every other model outcome -> None (GenEquiv.v). *)
 From Tetl Require Import Lib.Base Lib.MachOps C14.Spec C14.Model C14.Arith C14.Bits C14.ProofsRot C14.ProofsCmp C14.ProofsSat C14.ProofsNum C14.ProofsSwap C14.ProofsBit C14.GenEquiv C14.GenSpec.
 From Tetl Require Gen.Gen_bits2.
-From Coq Require Import ZifyBool.
+From Coq Require Import ZifyBool Btauto.
 Local Open Scope Z_scope.
 Ltac Zify.zify_post_hook ::= Z.to_euclidean_division_equations.
 
@@ -311,7 +311,12 @@ Ltac bswap_tac :=
          | |- context [shl_chk ?t ?x ?k] => destruct (shl_chk t x k) eqn:?; cbn [obind rbind res_of ok_of]; [|reflexivity]
          | |- context [shr_chk ?t ?x ?k] => destruct (shr_chk t x k) eqn:?; cbn [obind rbind res_of ok_of]; [|reflexivity]
          end;
-  cbn [obind rbind res_of ok_of]; rewrite ?wu_wrapu by lia; unwrap; try reflexivity.
+  cbn [obind rbind res_of ok_of]; rewrite ?wu_wrapu by lia; unwrap; try reflexivity;
+  (* the operands of | may come in any order / association in the source *)
+  try (match goal with
+       | |- Some (wrapu ?w ?a) = Some (wrapu ?w ?b) => apply (f_equal (fun z => Some (wrapu w z)))
+       | |- Some ?a = Some ?b => apply (f_equal (@Some Z))
+       end; apply Z.bits_inj'; intros ? ?; rewrite ?Z.lor_spec; btauto).
 
 Lemma byteswap_fallback_u16_eq val : Gen_bits2.byteswap_fallback_u16_g val = ok_of (byteswap_fallback_m 16 val).
 Proof. unfold Gen_bits2.byteswap_fallback_u16_g, byteswap_fallback_m. bswap_tac. Qed.
